@@ -736,7 +736,9 @@ class Program:
                     lk = c.local_key()
                     if lk and lk in self.fns:
                         cg[k].add(lk)
-                    elif c.virtual or (c.trait and not c.res):
+                    # a call through a trait object / unresolved generic reaches every implementation, also when the trait has a
+                    # default body for the method (the default is only one of the candidates)
+                    if c.virtual or (c.trait and not c.res):
                         for t in self.virtual_targets(c):
                             cg[k].add(t)
                     # reified fn items passed as arguments
